@@ -326,6 +326,9 @@ func loopChild(args []string) int {
 				w := build(nil)
 				d := describe(w, loop.Event{})
 				resp.RootKey = &d
+				for _, m := range w.Setup {
+					resp.Findings = append(resp.Findings, lwFinding{Sig: st.Prop + ":loop:stored-assignment-not-resumed", Clause: "initial-placement", Detail: m, State: w.Key()})
+				}
 				return
 			}
 			find := func(fs []Finding, path []loop.Event, w *loop.World, note string) {
@@ -351,6 +354,11 @@ func loopChild(args []string) int {
 							find(handoverOracle(w2), p2, w2, "")
 							find(ghostOracle(w2), p2, w2, "")
 						}
+					}
+					if e.Kind == "restart" && st.Handover {
+						// a sidecar restart that lets go of a copy whose move had begun
+						p2 := append(append([]loop.Event{}, path...), e)
+						find(ghostOracle(w2), p2, w2, "")
 					}
 					succ = append(succ, describe(w2, e))
 				}
@@ -484,6 +492,12 @@ func runLoopSearch(c *chk.Ctx, cfg *loop.Config, p loopParams, pool *lwPool, scr
 	resp := pool.call(reqs)
 	root := resp[0].RootKey
 	seen := map[string]int{root.Key: 0}
+	if len(resp[0].Findings) > 0 {
+		for _, f := range resp[0].Findings {
+			r.Violate(f.Sig, f.Clause, fmt.Sprintf("[%s] initial placement: %s", cfg.Name, f.Detail), 0,
+				&loopReplay{Property: p.prop, Clause: f.Clause, Config: cfg, State: f.State, Detail: f.Detail})
+		}
+	}
 	res.nodes = append(res.nodes, &lnode{key: root.Key, spent: root.Spent, conv: root.Conv, enabledProgress: root.Enabled})
 	record := func(fs []lwFinding) {
 		for _, f := range fs {
